@@ -352,5 +352,6 @@ def main(chk):
                     "impl": {k: res[i]["impl"].get(k) for k in ("kind", "errk", "errmsg", "out")}, "model_verdict": res[i]["verdict"]})
     chk.cov["rule"] += " Added after seeded round 5: Either steps that are property calls (a raising method, an absent property, arguments of such a step)."
     chk.cov["rule"] += " Added after seeded round 6: library code in Pangaea (indexing an iterator whose element raises, a `catch` handler that raises), a zero step for str / arr / int receivers."
+    chk.cov["rule"] += " Added after seeded round 7: Iterable methods on a lazily produced receiver whose first element raises, a module that fails while loading imported twice (files)."
     return pancore.conclude(chk, ok, broken, "Props/C07.v", res, viol, model_only, "C07",
                             "Core.Interp vs evaluator/*.go on fault-injected programs")
